@@ -120,6 +120,11 @@ package state
 //@   requires c != nil && c.store != nil
 //@   ensures [C18.collection.key] cnt(getCall) == 1 && lastarg(getCall, 0, Iface) == c.store && lastarg(getCall, 1, String) == c.entityType + "/" + key
 
+//@ event allCall := call Store[T].All
+//@ func (*TypedCollection[T]).All
+//@   props C18
+//@   requires c != nil && c.store != nil
+//@   ensures [C18.collection.all] cnt(allCall) == 1 && lastarg(allCall, 0, Iface) == c.store && result == lastres(allCall)
 //@ func (*TypedCollection[T]).EntityType
 //@   props C18
 //@   requires c != nil
